@@ -81,7 +81,7 @@ func (m *Manager) SyncLoop(ctx context.Context, errCh chan<- error) {
 				"txs", len(data.Txs),
 			)
 
-			if m.dataCache.IsSeen(dataHash) {
+			if m.isDataSeen(dataHash, dataHeight) {
 				m.logger.Debug("data already seen", "data hash", dataHash)
 				continue
 			}
@@ -104,7 +104,7 @@ func (m *Manager) SyncLoop(ctx context.Context, errCh chan<- error) {
 				errCh <- fmt.Errorf("failed to sync next block: %w", err)
 				return
 			}
-			m.dataCache.SetSeen(dataHash)
+			m.dataCache.SetSeen(dataSeenKey(dataHash, dataHeight))
 		case <-metricsTicker.C:
 			// Update channel metrics periodically
 			m.updateChannelMetrics()
@@ -182,10 +182,23 @@ func (m *Manager) trySyncNextBlock(ctx context.Context, daHeight uint64) error {
 		m.headerCache.DeleteItem(currentHeight + 1)
 		m.dataCache.DeleteItem(currentHeight + 1)
 		if !bytes.Equal(h.DataHash, dataHashForEmptyTxs) {
-			m.dataCache.SetSeen(h.DataHash.String())
+			m.dataCache.SetSeen(dataSeenKey(h.DataHash.String(), hHeight))
 		}
 		m.headerCache.SetSeen(h.Hash().String())
 	}
+}
+
+// dataSeenKey is the key under which a data item is remembered as seen. The data commitment alone does
+// not identify a block's data: two blocks may carry identical transaction lists, so the block height is
+// part of the key.
+func dataSeenKey(dataHash string, height uint64) string {
+	return fmt.Sprintf("%s/%d", dataHash, height)
+}
+
+// isDataSeen reports whether the data with the given commitment was already seen for the given height.
+// Marks stored under the bare commitment (written by earlier versions) are still honoured.
+func (m *Manager) isDataSeen(dataHash string, height uint64) bool {
+	return m.dataCache.IsSeen(dataHash) || m.dataCache.IsSeen(dataSeenKey(dataHash, height))
 }
 
 func (m *Manager) handleEmptyDataHash(ctx context.Context, header *types.Header) {
